@@ -47,7 +47,9 @@ META = {
             "jax-jit (no_counts), max_workers, readout error and check_clifford=False configurations are in the model but "
             "not generated. Reference semantics of primitive gates uses Operator.compute_matrix (independent of decompositions); "
             "finite-shot cases are checked for (a)/(c) and the model only (no value comparison); null.qubit is compared on result "
-            "sizes only; default.clifford state/density results are not compared.",
+            "sizes only; default.clifford state/density results are not compared. Defect classes present in the pinned tree "
+            "(all on devices other than default.qubit, plus the wire order of wire-less measurements on devices without wires) are "
+            "reported under stable keys `finding:<device>:<class>` (function classify); a failure outside these signatures is keyed by its input.",
     "assumptions": ["graph-based decomposition (qp.decomposition.enable_graph) is off (the default)",
                     "float error of the simulators on <= 6 wires is below 1e-9"],
     "trusted": ["hand-written model coq/Disc/PreprocessModel.v tied to /repo by correspondence only",
@@ -163,7 +165,7 @@ def classify(r, kind, detail="", mm=None):
     """stable keys for the defect classes that exist in the pinned tree (reported until registered/fixed); any
     failure outside these signatures gets a key that identifies the failing input"""
     dev, tags, meas = r["device"], set(r["tags"]), r["meas"]
-    if any(t.startswith("initial_prep") for t in tags):
+    if any(t.startswith("initial_prep") for t in tags) or r["ops"][:1] and r["ops"][0].startswith(("BasisState", "StatePrep")):
         tags.add("initial_prep")
     if any(o.startswith(("BasisEmbedding", "BasisState", "StatePrep")) for o in r["ops"][1:]):
         tags.add("midprep")          # BasisEmbedding decomposes into a (mid-circuit) BasisState
@@ -183,7 +185,7 @@ def classify(r, kind, detail="", mm=None):
             if any(m.startswith(("probs", "density_matrix", "state")) for m in meas) and exc in ("NotImplementedError", "KeyError", "ValueError", "AttributeError", "TransformError"):
                 return "finding:default.tensor:state-measurements-accepted-but-not-executable"
             if "initial_prep" in tags or "midprep" in tags:
-                return "finding:default.tensor:stateprep-on-subset-of-wires"
+                return "finding:default.tensor:initial-stateprep-wire-handling"
         if dev == "default.mixed" and exc == "MatrixUndefinedError" and "midprep" in tags:
             return "finding:default.mixed:midcircuit-stateprep-accepted-by-name"
         if dev == "default.clifford":
@@ -205,7 +207,7 @@ def classify(r, kind, detail="", mm=None):
             return "finding:default.clifford:stateprep-accepted-by-name"
         if dev == "default.tensor":
             if "initial_prep" in tags or "midprep" in tags:
-                return "finding:default.tensor:stateprep-on-subset-of-wires"
+                return "finding:default.tensor:initial-stateprep-wire-handling"
             if mm["m"].startswith(("state", "density_matrix")):
                 return "finding:default.tensor:state-measurements-accepted-but-not-executable"
     return f"{kind}:{casekey(r)}"
